@@ -67,7 +67,12 @@ def gen_world(rng, tier, *, min_species=2, max_species=5, allow_small_refs=True,
         items.insert(rng.randint(0, len(items)), ("sol", 0))
     lines = []
     instances = []
-    resid = rng.choice([1, 1, 250])
+    resid = rng.choice([1, 1, 250, "end"])
+    if resid == "end":
+        # the LAST residue of the file carries the largest number that fits five digits
+        n_res_total = sum(1 if kind == "sol" else len(set(zip(species[idx]["start"]["resnames"], species[idx]["start"]["resids"])))
+                          for kind, idx in items)
+        resid = 99999 - n_res_total + 1
     atomid = 1
     for kind, idx in items:
         if kind == "sol":
